@@ -141,6 +141,26 @@ def generate(rng, n, tier="quick"):
     case = session({"escape": "none"}, [("main", src2)], {"api": "render", "name": "main"}, data)
     case["id"] = "%s-bptype2" % ID
     out.append((case, {"mode": "bptype", "oracle": ["must", "[Y0zY1|[p]s|Y0Y1]"]}))
+    # directed: a block parameter that holds a VALUE (the index / key parameter of an each; the element parameter of an each / with over
+    # a derived value: a subexpression result, a literal) spelled behind one or more `../`: the head is the block parameter, the rest of
+    # the path walks into ITS value – the same as without the `../` (the pinned behaviour; the crate and the model are compared on every
+    # row, the rows marked `must` also against the written expectation)
+    data = {"list": [{"n": "a", "sub": {"z": 1}, "it": {"n": "WRONG"}}, {"n": "b", "sub": {"z": 2}}], "i": "WRONG", "o": {"p": {"n": "P", "k": "WRONG"}, "q": {"n": "Q"}}}
+    rows_bp = [
+        ("{{#each list as |it i|}}{{#with sub}}{{../i}}{{../it.n}}{{i}}{{it.n}}{{/with}};{{/each}}", ["must", "0a0a;1b1b;"]),
+        ("{{#each (lookup this \"list\") as |it i|}}{{#with sub}}{{../it.n}}{{../i}}{{/with}};{{/each}}", ["must", "a0;b1;"]),
+        ("{{#each (lookup this \"list\") as |it|}}{{#with it.sub}}{{../it.n}}{{../it.sub.z}}{{/with}};{{/each}}", ["must", "a1;b2;"]),
+        ("{{#each o as |v k|}}{{#with v}}{{../k}}:{{../v.n}}{{/with}};{{/each}}", ["must", "p:P;q:Q;"]),
+        ("{{#each [1,2] as |e j|}}{{#if true}}{{../e}}{{../j}}{{e}}{{j}}{{/if}};{{/each}}", ["any", "`../` through an if (no scope pushed)"]),
+        ("{{#with (lookup o \"p\") as |w|}}{{#with n}}{{../w.n}}{{w.n}}{{/with}}{{/with}}", ["must", "PP"]),
+        ("{{#each list as |it i|}}{{#each sub as |v k|}}{{../k}}{{../../i}}{{../i}}{{../v}}{{/each}};{{/each}}", ["any", "two levels"]),
+        ("{{#each list as |it i|}}{{#with sub}}{{#with z}}{{../../i}}{{../../it.n}}{{/with}}{{/with}};{{/each}}", ["any", "two levels"]),
+        ("{{#each \"ab\" as |c|}}{{c}}{{/each}}|{{#with \"s\" as |w|}}{{#with @root.o}}{{../w}}{{/with}}{{/with}}", ["any", "literal"]),
+    ]
+    for k, (src, orc) in enumerate(rows_bp):
+        case = session({"escape": "none"}, [("main", src)], {"api": "render", "name": "main"}, data)
+        case["id"] = "%s-bpup%02d" % (ID, k)
+        out.append((case, {"mode": "bpup", "oracle": orc}))
     # directed: a numeric segment far beyond the end of an array designates nothing – at every magnitude a machine index can have
     # (the ends of 16-, 32- and 64-bit ranges), in every spelling of a path step; `lookup` agrees with the inline path
     data = {"xs": ["a", "b"], "o": {"xs": ["c"]}}
